@@ -1342,7 +1342,7 @@ pub (crate) fn bid128_add(x: &BID_UINT128, y: &BID_UINT128, rnd_mode: RoundingMo
                         } else if (is_midpoint_lt_even || is_inexact_gt_midpoint)
                                && ((x_sign != 0 && (rnd_mode == RoundingMode::Upward
                                                  || rnd_mode == RoundingMode::TowardZero))
-                                || (x_sign != 0 && (rnd_mode == RoundingMode::Downward
+                                || (x_sign == 0 && (rnd_mode == RoundingMode::Downward
                                                  || rnd_mode == RoundingMode::TowardZero))) {
                             // C1 = C1 - 1
                             C1_lo -= 1;
